@@ -1,0 +1,189 @@
+//go:build verif
+
+// Contracts for the govc verifier (see /verif/DESIGN.md). Comment-only file.
+package setz
+
+//@ spec member(b ref, n int) bool = 0 <= n && n/64 < len(b.set) && bit(b.set[n/64], n%64) == 1
+//@ recspec card(row seq, off int, n int) int = ite(n <= 0, 0, card(row, off, n-1) + pc64(row[off+n-1]))
+//@ spec bcard(b ref) int = card(rowof(b.set), offof(b.set), len(b.set))
+
+//@ lemma cardStore(row seq, off int, n int, i int, w int)
+//@   decreases n
+//@   ensures (off <= i && i < off + n) ==> card(store(row, i, w), off, n) == card(row, off, n) - pc64(row[i]) + pc64(w)
+//@   ensures !(off <= i && i < off + n) ==> card(store(row, i, w), off, n) == card(row, off, n)
+
+//@ lemma cardEq(r1 seq, o1 int, r2 seq, o2 int, n int)
+//@   requires forall k in 0..n: r1[o1+k] == r2[o2+k]
+//@   decreases n
+//@   ih r1, o1, r2, o2, n-1
+//@   ensures card(r1, o1, n) == card(r2, o2, n)
+
+//@ lemma cardZeros(row seq, off int, n int, m int)
+//@   requires n <= m && forall k in n..m: row[off+k] == 0
+//@   decreases m - n
+//@   ih row, off, n, m-1
+//@   ensures card(row, off, m) == card(row, off, n)
+
+//@ func Bitmap.Contains
+//@   ensures result == member(b, num)
+
+//@ func Bitmap.Cap
+//@   ensures result == 64*len(b.set)
+
+//@ func Bitmap.Len
+//@   ensures result == bcard(b)
+//@   loop 1:
+//@     invariant count == card(rowof(b.set), offof(b.set), idx1) && 0 <= count && count <= 64*idx1
+//@     decreases len(b.set) - idx1
+
+//@ func Bitmap.Grow
+//@   uses cardEq, cardZeros
+//@   requires n < 1073741824
+//@   modifies b.set, b.set[len(b.set):cap(b.set)]
+//@   ensures len(b.set) >= old(len(b.set)) && len(b.set) > n/64
+//@   ensures forall m: member(b, m) == old(member(b, m))
+//@   ensures bcard(b) == old(bcard(b))
+//@   at end:
+//@     apply cardEq(rowof(old(b.set)), offof(old(b.set)), rowof(b.set), offof(b.set), old(len(b.set)))
+//@     apply cardZeros(rowof(b.set), offof(b.set), old(len(b.set)), len(b.set))
+
+//@ func Bitmap.Add
+//@   uses cardStore, cardEq, cardZeros
+//@   requires num < 1073741824
+//@   modifies b.set, b.set[0:cap(b.set)]
+//@   ensures result == !old(member(b, num))
+//@   ensures member(b, num) && len(b.set) >= old(len(b.set))
+//@   ensures forall m: m != num ==> member(b, m) == old(member(b, m))
+//@   ensures bcard(b) == old(bcard(b)) + ite(result, 1, 0)
+//@   at after-call4:
+//@     apply cardEq(rowof(old(b.set)), offof(old(b.set)), rowof(b.set), offof(b.set), old(len(b.set)))
+//@     apply cardZeros(rowof(b.set), offof(b.set), old(len(b.set)), len(b.set))
+//@     assert bcard(b) == old(bcard(b))
+
+//@ func Bitmap.Remove
+//@   uses cardStore
+//@   modifies b.set[0:len(b.set)]
+//@   ensures result == old(member(b, num))
+//@   ensures !member(b, num)
+//@   ensures forall m: m != num ==> member(b, m) == old(member(b, m))
+//@   ensures bcard(b) == old(bcard(b)) - ite(result, 1, 0)
+
+//@ func Bitmap.Diff
+//@   requires !sameArray(b.set, other.set)
+//@   modifies b.set[0:len(b.set)]
+//@   ensures forall k in 0..len(b.set): forall j in 0..64: bit(b.set[k], j) == ite(k < len(other.set) && bit(other.set[k], j) == 1, 0, bit(old(b.set[k]), j))
+//@   loop 1:
+//@     invariant 0 <= i && i <= len(b.set) && unchangedOutside(b.set, 0, i)
+//@     invariant forall k in 0..i: forall j in 0..64: bit(b.set[k], j) == ite(k < len(other.set) && bit(other.set[k], j) == 1, 0, bit(old(b.set[k]), j))
+//@     decreases len(b.set) - i
+
+//@ func Bitmap.Intersect
+//@   requires !sameArray(b.set, other.set)
+//@   modifies b.set[0:len(b.set)]
+//@   ensures forall k in 0..len(b.set): forall j in 0..64: bit(b.set[k], j) == ite(k < len(other.set) && bit(other.set[k], j) == 1, bit(old(b.set[k]), j), 0)
+//@   loop 1:
+//@     invariant 0 <= i && i <= len(b.set) && unchangedOutside(b.set, 0, i)
+//@     invariant forall k in 0..i: forall j in 0..64: bit(b.set[k], j) == ite(k < len(other.set) && bit(other.set[k], j) == 1, bit(old(b.set[k]), j), 0)
+//@     decreases len(b.set) - i
+
+//@ func Bitmap.Clone
+//@   ensures fresh(result.set) && len(result.set) == len(b.set) && forall k in 0..len(b.set): result.set[k] == b.set[k]
+
+//@ func Bits.Len
+//@   inline
+
+//@ func Bits.Add
+//@   requires b.length == bcard(b) && num < 1073741824 && 0 <= b.length && b.length < 1099511627776
+//@   modifies b.length, b.set, b.set[0:cap(b.set)]
+//@   ensures b.length == bcard(b)
+//@   ensures result == !old(member(b, num)) && member(b, num)
+//@   ensures forall m: m != num ==> member(b, m) == old(member(b, m))
+//@   ensures b.length == old(b.length) + ite(result, 1, 0)
+
+//@ func Bits.Remove
+//@   requires b.length == bcard(b) && 0 <= b.length
+//@   modifies b.length, b.set[0:len(b.set)]
+//@   ensures b.length == bcard(b)
+//@   ensures result == old(member(b, num)) && !member(b, num)
+//@   ensures forall m: m != num ==> member(b, m) == old(member(b, m))
+//@   ensures b.length == old(b.length) - ite(result, 1, 0)
+
+//@ func Bits.Diff
+//@   requires !sameArray(b.set, other.set)
+//@   modifies b.length, b.set[0:len(b.set)]
+//@   ensures b.length == bcard(b)
+//@   ensures forall k in 0..len(b.set): forall j in 0..64: bit(b.set[k], j) == ite(k < len(other.set) && bit(other.set[k], j) == 1, 0, bit(old(b.set[k]), j))
+
+//@ func Bits.Intersect
+//@   requires !sameArray(b.set, other.set)
+//@   modifies b.length, b.set[0:len(b.set)]
+//@   ensures b.length == bcard(b)
+//@   ensures forall k in 0..len(b.set): forall j in 0..64: bit(b.set[k], j) == ite(k < len(other.set) && bit(other.set[k], j) == 1, bit(old(b.set[k]), j), 0)
+
+//@ func Bitmap.Merge
+//@   requires !sameArray(b.set, other.set)
+//@   modifies b.set, b.set[0:cap(b.set)]
+//@   ensures len(b.set) == max(old(len(b.set)), len(other.set))
+//@   ensures forall k in 0..len(b.set): forall j in 0..64: bit(b.set[k], j) == ite(k < len(other.set) && bit(other.set[k], j) == 1, 1, ite(k < old(len(b.set)), bit(old(b.set[k]), j), bit(other.set[k], j)))
+//@   loop 1:
+//@     invariant 0 <= i && i <= len(other.set) && len(b.set) == max(old(len(b.set)), i) && frameOnly(old(b.set))
+//@     invariant sameArray(b.set, old(b.set)) && b.set.off == old(b.set.off) && cap(b.set) == old(cap(b.set)) || fresh(b.set)
+//@     invariant forall k in 0..len(other.set): other.set[k] == old(other.set[k])
+//@     invariant forall k in i..len(b.set): b.set[k] == old(b.set[k])
+//@     invariant forall k in 0..min(i, len(b.set)): forall j in 0..64: bit(b.set[k], j) == ite(bit(other.set[k], j) == 1, 1, ite(k < old(len(b.set)), bit(old(b.set[k]), j), bit(other.set[k], j)))
+//@     decreases len(other.set) - i
+
+//@ func Bits.Merge
+//@   requires !sameArray(b.set, other.set)
+//@   modifies b.length, b.set, b.set[0:cap(b.set)]
+//@   ensures b.length == bcard(b)
+//@   ensures len(b.set) == max(old(len(b.set)), len(other.set))
+
+//@ func BitmapIter.Value
+//@   requires 0 <= bi.i && bi.i < 1099511627776 && 0 <= bi.j && bi.j < 64
+//@   ensures result == 64*bi.i + bi.j
+
+//@ func BitmapIter.Next
+//@   requires bi.bm != nil && 0 <= bi.i && bi.i <= len(bi.bm.set) && 0 <= bi.j && bi.j <= 64 && (bi.read ==> bi.j < 64)
+//@   modifies bi.i, bi.j, bi.read
+//@   ensures 0 <= bi.i && bi.i <= len(bi.bm.set) && 0 <= bi.j && bi.j <= 64
+//@   ensures result ==> bi.i < len(bi.bm.set) && bi.j < 64 && bit(bi.bm.set[bi.i], bi.j) == 1 && bi.read
+//@   ensures !result ==> bi.i == len(bi.bm.set) && !bi.read
+//@   ensures forall k in old(bi.i)..bi.i+1: forall j in 0..64: (k < len(bi.bm.set) && (k > old(bi.i) || j >= old(bi.j) + ite(old(bi.read), 1, 0)) && (k < bi.i || j < bi.j)) ==> bit(bi.bm.set[k], j) == 0
+//@   loop 1:
+//@     invariant old(bi.i) <= bi.i && bi.i <= len(bi.bm.set) && 0 <= bi.j && bi.j <= 64 && !bi.read
+//@     invariant bi.i == old(bi.i) ==> bi.j >= old(bi.j) + ite(old(bi.read), 1, 0)
+//@     invariant forall k in old(bi.i)..bi.i+1: forall j in 0..64: (k < len(bi.bm.set) && (k > old(bi.i) || j >= old(bi.j) + ite(old(bi.read), 1, 0)) && (k < bi.i || j < bi.j)) ==> bit(bi.bm.set[k], j) == 0
+//@     decreases len(bi.bm.set) - bi.i
+//@   loop 2:
+//@     invariant old(bi.i) <= bi.i && bi.i < len(bi.bm.set) && 0 <= bi.j && bi.j <= 64 && !bi.read
+//@     invariant bi.i == old(bi.i) ==> bi.j >= old(bi.j) + ite(old(bi.read), 1, 0)
+//@     invariant forall k in old(bi.i)..bi.i+1: forall j in 0..64: (k < len(bi.bm.set) && (k > old(bi.i) || j >= old(bi.j) + ite(old(bi.read), 1, 0)) && (k < bi.i || j < bi.j)) ==> bit(bi.bm.set[k], j) == 0
+//@     decreases 64 - bi.j
+
+//@ func Bitmap.Range
+//@   traced fn
+//@   ghost idx = anyseq()
+//@   ghost done = 0
+//@   requires len(b.set) < 1099511627776
+//@   ensures forall k in 0..ntr_fn: member(b, tr_fn[k])
+//@   ensures forall k in 0..ntr_fn-1: tr_fn[k] < tr_fn[k+1] && fn(tr_fn[k])
+//@   ensures done == 0 ==> ntr_fn >= 1 && !fn(tr_fn[ntr_fn-1])
+//@   ensures done == 1 ==> (ntr_fn >= 1 ==> fn(tr_fn[ntr_fn-1])) && forall m: member(b, m) ==> 0 <= idx[m] && idx[m] < ntr_fn && tr_fn[idx[m]] == m
+//@   ensures ntr_fn >= 1 ==> forall m in 0..tr_fn[ntr_fn-1]+1: member(b, m) ==> 0 <= idx[m] && idx[m] < ntr_fn && tr_fn[idx[m]] == m
+//@   loop 1:
+//@     invariant 0 <= i && i <= len(b.set) && 0 <= ntr_fn && done == 0
+//@     invariant forall k in 0..ntr_fn: member(b, tr_fn[k]) && tr_fn[k] < 64*i && fn(tr_fn[k])
+//@     invariant forall k in 0..ntr_fn-1: tr_fn[k] < tr_fn[k+1]
+//@     invariant forall m in 0..64*i: member(b, m) ==> 0 <= idx[m] && idx[m] < ntr_fn && tr_fn[idx[m]] == m
+//@     decreases len(b.set) - i
+//@   at loop1.after:
+//@     ghost done = 1
+//@   loop 2:
+//@     invariant 0 <= j && j <= 64 && 0 <= ntr_fn && i < len(b.set) && done == 0
+//@     invariant forall k in 0..ntr_fn: member(b, tr_fn[k]) && tr_fn[k] < 64*i + j && fn(tr_fn[k])
+//@     invariant forall k in 0..ntr_fn-1: tr_fn[k] < tr_fn[k+1]
+//@     invariant forall m in 0..64*i+j: member(b, m) ==> 0 <= idx[m] && idx[m] < ntr_fn && tr_fn[idx[m]] == m
+//@     decreases 64 - j
+//@   at loop2.body-begin:
+//@     ghost idx = ite(bit(b.set[i], j) == 1, store(idx, 64*i+j, ntr_fn), idx)
